@@ -34,7 +34,7 @@ ASSUMPTIONS = ["tetra=False for the sea/surface semantics (tetrahedron weights a
                "for the group starting at band 0 - noted, outside this property)",
                "tolerance 1e-8 of the array scale x (1e-3/gap)^4 for inter-group gaps below 1e-3, plus the rounding "
                "of the finite-difference stencil 1e-13*max|sea|*(2/dE)^n"]
-MIN_NONTRIVIAL = {"quick": 25, "thorough": 400}
+MIN_NONTRIVIAL = {"quick": 12, "thorough": 400}
 RTOL = 1e-8
 
 FORMULAS = ["Identity", "Omega", "Spin", "InvMass", "DerOmega", "Morb_Hpm", "VelVel", "VelOmega"]
